@@ -17,10 +17,6 @@ def bodyToks : Datum → List Tok
   | .pair a d => toks a ++ .dot :: toks d
   | _ => []
 
-def isCompound : Datum → Bool
-  | .list _ | .vec _ | .bytes _ | .pair _ _ => true
-  | _ => false
-
 theorem toks_compound (d : Datum) (h : isCompound d = true) :
     toks d = .open_ .round (pmodOf d) :: (bodyToks d ++ [.close .round]) := by
   cases d <;> simp [isCompound] at h <;> simp [toks, pmodOf, bodyToks]
@@ -38,8 +34,10 @@ theorem parse_body (d : Datum) (hw : WF d = true) (hc : isCompound d = true) (ib
   | list xs =>
     simp only [WF, Bool.and_eq_true] at hw
     obtain ⟨n1, n2, n3, n4, n5, n6⟩ := newFrame_props s e none
-    obtain ⟨st2, last2, cur2, hg2, hext, h2⟩ := parse_seq xs hw.1 ibody hi more pf st stack _ (s, e) hg n1
-      (by simp) n2 n3 n4 (fun _ => hw.2)
+    obtain ⟨st2, last2, cur2, hext, h2⟩ := elems_dispatch xs hw.1 hw.2 ibody hi more pf st stack _ (s, e) n1
+      (by simp) n2 n3 (fun hh => parse_seq xs hw.1 ibody hi more pf st stack _ (s, e) hg n1
+        (by simp) n2 n3 n4 (fun _ => hh))
+    have hg2 : Good st2 := trivial
     refine ⟨st2, last2, cur2, hg2, hext.paren, ?_, h2⟩
     intro sp
     refine ⟨_, build_list cur2 sp (hext.comment.trans n1) hext.pmod (hext.dot.trans n2), ?_, ?_⟩ <;>
@@ -47,8 +45,10 @@ theorem parse_body (d : Datum) (hw : WF d = true) (hc : isCompound d = true) (ib
   | vec xs =>
     simp only [WF, Bool.and_eq_true] at hw
     obtain ⟨n1, n2, n3, n4, n5, n6⟩ := newFrame_props s e (some .vector)
-    obtain ⟨st2, last2, cur2, hg2, hext, h2⟩ := parse_seq xs hw.1 ibody hi more pf st stack _ (s, e) hg n1
-      (by simp) n2 n3 n4 (fun _ => hw.2)
+    obtain ⟨st2, last2, cur2, hext, h2⟩ := elems_dispatch xs hw.1 hw.2 ibody hi more pf st stack _ (s, e) n1
+      (by simp) n2 n3 (fun hh => parse_seq xs hw.1 ibody hi more pf st stack _ (s, e) hg n1
+        (by simp) n2 n3 n4 (fun _ => hh))
+    have hg2 : Good st2 := trivial
     refine ⟨st2, last2, cur2, hg2, hext.paren, ?_, h2⟩
     intro sp
     refine ⟨_, build_vec cur2 sp (hext.comment.trans n1) hext.pmod, ?_, ?_⟩ <;>
@@ -131,27 +131,6 @@ theorem pTop_atom (t : Tok) (hatom : isAtomTok t = true) (pf : Nat) (st : PSt) (
     pTop (pf + 1) st [] (.tok t s e :: more) = ⟨some (.ok { d := atomToDatum t, sp := (s, e) }), st, more⟩ := by
   cases t <;> simp [isAtomTok] at hatom <;>
     (rw [pTop] <;> first | rfl | (intros; simp_all) | (intro h; cases h))
-
-theorem toks_atom (d : Datum) (hw : WF d = true) (hc : isCompound d = false) :
-    ∃ t, toks d = [t] ∧ isAtomTok t = true ∧ atomToDatum t = d := by
-  cases d with
-  | int i => exact ⟨_, rfl, rfl, rfl⟩
-  | rat n d =>
-    refine ⟨_, rfl, rfl, ?_⟩
-    simp only [WF, Bool.and_eq_true, decide_eq_true_eq, beq_iff_eq] at hw
-    exact normRat_lowest n d hw.1 hw.2
-  | bool b => exact ⟨_, rfl, rfl, rfl⟩
-  | chr c => exact ⟨_, rfl, rfl, rfl⟩
-  | str s => exact ⟨_, rfl, rfl, rfl⟩
-  | sym s =>
-    have hok : symOK s = true := by simpa [WF] using hw
-    exact ⟨_, rfl, isAtomTok_symTok s hok, atomToDatum_symTok s hok⟩
-  | flo _ => simp [WF] at hw
-  | other _ => simp [WF] at hw
-  | list _ => simp [isCompound] at hc
-  | vec _ => simp [isCompound] at hc
-  | bytes _ => simp [isCompound] at hc
-  | pair _ _ => simp [isCompound] at hc
 
 /-- the parser, at top level, on the tokens of one written datum -/
 theorem pTop_datum (d : Datum) (hw : WF d = true) (items : List LexItem) (hi : AllTok items (toks d))
